@@ -127,11 +127,13 @@ Section Convert.
 
   (* one entry of a body, optionally moved by a transformation, to the
      TRIPOLI-4 surface(s) written for it *)
+  Definition move_ms (tr : option transf) (ms : msurf) : msurf :=
+    match tr with Some t => transform_ms t ms | None => ms end.
+
   Definition convert_entry (tr : option transf) (e : entry) : res (list t4e) :=
     let '(ty, prm, side) := e in
     do ms <- to_msurf ty prm;
-    let ms' := match tr with Some t => transform_ms t ms | None => ms end in
-    do l <- to_t4 ms';
+    do l <- to_t4 (move_ms tr ms);
     Ok (with_side side l).
 
   Fixpoint convert_entries (tr : option transf) (es : list entry) : res (list t4e) :=
